@@ -252,6 +252,8 @@ def rule_text(r):
 
 
 def grammar_text(g):
+    if g.meta.get("text"):
+        return g.meta["text"]
     return "\n\n".join(rule_text(r) for r in g.rules) + "\n"
 
 
@@ -330,7 +332,7 @@ def grammar_json(g):
     ws = g.index("Whitespace") if g.rule("Whitespace") is not None else 0
     return {"id": g.id, "rules": rules, "nodes": nodes, "root": g.index(g.root), "ws": ws, "lrfirst": bool(g.meta.get("lrfirst", True)),
             "derives": g.meta.get("derives_list", ["Debug", "Clone"]), "badident": bool(g.meta.get("badident")),
-            "expect": g.meta.get("expect", "code"),
+            "expect": g.meta.get("expect", "code"), "lean": bool(g.meta.get("lean", False)),
             "alpha": [ord(c) for c in (g.alpha or [])], "maxlen": g.maxlen,
             "extra": [[ord(c) for c in x] for x in g.extra]}
 
@@ -493,17 +495,25 @@ def chars_of(g):
     return out
 
 
+def corpus_json(grammars):
+    """the corpus as the specification loads it: every grammar knows its own index (for cached tables)"""
+    js = [grammar_json(g) for g in grammars]
+    for i, j in enumerate(js):
+        j["idx"] = i + 1
+    return js
+
+
 def write_corpus(grammars, outdir):
     """corpus.json for TLC, one .ebnf per grammar and meta.json for the harness build"""
     import os
     os.makedirs(outdir, exist_ok=True)
-    js = [grammar_json(g) for g in grammars]
+    js = corpus_json(grammars)
     with open(os.path.join(outdir, "corpus.json"), "w") as f:
         json.dump(js, f, separators=(",", ":"))
     lines = []
     for g in grammars:
         with open(os.path.join(outdir, g.id + ".ebnf"), "w") as f:
-            f.write(grammar_text(g))
+            f.write(g.meta.get("text") or grammar_text(g))      # F-layout: the same AST in another spelling
         if g.meta.get("user_rs"):
             with open(os.path.join(outdir, g.id + ".user.rs"), "w") as f:
                 f.write(g.meta["user_rs"])
